@@ -331,6 +331,7 @@ func (x *Exec) applyContract(fc *FuncContract, key string, names []string, args 
 	}
 	for i := 0; i < resT.Len(); i++ {
 		rv := x.freshVal("ret_"+short, resT.At(i).Type())
+		x.assumeAllocated(rv)
 		rets = append(rets, rv)
 		penv.vars[fmt.Sprintf("ret%d", i)] = rv
 		if n := resT.At(i).Name(); n != "" && n != "_" {
